@@ -1148,6 +1148,10 @@ impl FseDecoder {
         self.decompress_single(data)
     }
     
+    /// Upper bound for the initial output reservation derived from the (untrusted)
+    /// `original_size` header field; larger outputs grow on demand.
+    const MAX_OUTPUT_PREALLOC: usize = 1 << 20;
+
     /// Single-threaded decompression (ZSTD-compatible FSE algorithm)
     fn decompress_single(&mut self, data: &[u8]) -> Result<Vec<u8>> {
         if data.is_empty() {
@@ -1242,13 +1246,24 @@ impl FseDecoder {
         let mut byte_pos = compressed_data.len(); // Start from the end for rANS
         
         // Decode symbols using advanced approach
-        let mut output = Vec::with_capacity(original_size);
+        // `original_size` is an untrusted header field and the format puts no bound on the
+        // expansion ratio, so do not size the buffer from it: start with a bounded hint, grow
+        // as symbols are actually produced, and report allocation failure as an error.
+        let mut output: Vec<u8> = Vec::new();
+        output
+            .try_reserve(original_size.min(Self::MAX_OUTPUT_PREALLOC))
+            .map_err(|_| ZiporaError::out_of_memory(original_size))?;
         
         for i in 0..original_size {
             // Decode symbol first (optimal order for performance)
             let (symbol, new_state) = table.decode_symbol(state);
             
             // Output the decoded symbol (line 801 in reference)
+            if output.len() == output.capacity() {
+                output
+                    .try_reserve(1)
+                    .map_err(|_| ZiporaError::out_of_memory(original_size))?;
+            }
             output.push(symbol);
             
             // Update state
